@@ -94,6 +94,80 @@ def run(ctx) -> None:
     ctx.count("group_paths", len(body))
     # the function returns the list it filled
     ctx.check(all(p.outcome[0] == "return" and ast.unparse(p.outcome[1]) == OUT for p in gpaths), RO, "_group_events returns the grouped list", "does not return the list it filled", gf.loc)
+    # ---------------------------------------------------------------- the predicate handed to the queue search
+    # Whatever callable remove() receives -- a closure of _group_events, a lambda, possibly delegating to a helper method -- is
+    # enumerated as a function of its own (helpers inlined, `return E` branched on E) and decided as a truth table over the
+    # three atoms; the cookie it compares with must be the current record's.
+    from ..flow import origins
+    from ..model import FuncInfo, boolified
+
+    closures = {n.name: n for n in ast.walk(gf.node) if isinstance(n, ast.FunctionDef) and n is not gf.node}
+    rec_names = {n.target.id for n in ast.walk(gf.node) if isinstance(n, ast.For) and isinstance(n.target, ast.Name) and ast.unparse(n.iter) == IN}
+    rec_cookie = {f"{r}.cookie" for r in rec_names}
+
+    def is_rec_cookie(txt: str) -> bool:
+        if txt in rec_cookie:
+            return True
+        if txt.isidentifier():
+            return all(b in rec_cookie and not w for b, w in origins(gf.node, ast.Name(txt, ast.Load())))
+        return False
+
+
+    def predicate_ok(node, label, where):
+        """Truth table of a one-argument callable (FunctionDef): accepts exactly a non-tuple MOVED_FROM with the record's cookie."""
+        params = [a.arg for a in node.args.args]
+        if len(params) != 1:
+            ctx.viol(RM, f"partner predicate takes the queued element ({label})", f"predicate takes {params}", where)
+            return False
+        q = params[0]
+        fi_ = boolified(FuncInfo(node.name, f"{gf.qualname}.<locals>.{node.name}", node, gf.module, None))
+        ok, why, ntrue = True, "", 0
+        for p in Enumerator(ThreadCfg(P, follow_attrs=False)).run(fi_, selfcls="InotifyBuffer"):
+            if p.outcome[0] != "return" or not isinstance(p.outcome[1], ast.Constant):
+                ok, why = False, f"does not return a truth value on [{p.sig()[:60]}]"
+                continue
+            c = p.conds()
+            tup = c.get(f"isinstance({q}, tuple)")
+            mf = c.get(f"{q}.is_moved_from")
+            ck, other = None, None
+            for a, v in c.items():
+                m = re.fullmatch(rf"{re.escape(q)}\.cookie == (.+)|(.+) == {re.escape(q)}\.cookie", a)
+                if m:
+                    ck, other = v, (m.group(1) or m.group(2))
+            extra = [a for a in c if a not in (f"isinstance({q}, tuple)", f"{q}.is_moved_from") and not (other and other in a and ".cookie" in a)]
+            res = bool(p.outcome[1].value)
+            if res:
+                ntrue += 1
+                if not (tup is False and mf is True and ck is True and is_rec_cookie(other or "")):
+                    ok, why = False, f"accepts an element with tuple={tup}, is_moved_from={mf}, cookie-equal={ck} (compared with `{other}`)"
+            else:
+                if not (tup is True or mf is False or ck is False or any(c.get(a) is not None for a in extra)):
+                    ok, why = False, "rejects an element although it is a non-tuple MOVED_FROM with the record's cookie"
+                if tup is False and mf is True and ck is True:
+                    ok, why = False, "rejects the partner itself"
+        ctx.check(ok and ntrue >= 1, RM, f"partner predicate {label}", why or "the predicate never accepts anything", where)
+        return ok and ntrue >= 1
+
+    def as_funcdef(arg):
+        """FunctionDef for a closure name, a lambda, or functools.partial(f, bound...) over a helper whose remaining parameter is the element."""
+        if isinstance(arg, ast.Name) and arg.id in closures:
+            return closures[arg.id]
+        if isinstance(arg, ast.Lambda):
+            node = ast.FunctionDef(name="_partner_predicate", args=arg.args, body=[ast.Return(arg.body)], decorator_list=[], returns=None, type_comment=None, type_params=[])
+            ast.copy_location(node, arg)
+            return ast.fix_missing_locations(node)
+        if isinstance(arg, ast.Call) and ast.unparse(arg.func) in ("functools.partial", "partial") and arg.args:
+            # partial(f, a1, ..) == lambda x: f(a1, .., x)
+            call = ast.Call(arg.args[0], list(arg.args[1:]) + [ast.Name("queued__", ast.Load())], list(arg.keywords))
+            node = ast.FunctionDef(name="_partner_predicate", args=ast.arguments(posonlyargs=[], args=[ast.arg("queued__")], kwonlyargs=[], kw_defaults=[], defaults=[]), body=[ast.Return(call)], decorator_list=[], returns=None, type_comment=None, type_params=[])
+            ast.copy_location(node, arg)
+            return ast.fix_missing_locations(node)
+        if isinstance(arg, ast.Name):
+            # a local bound once to one of the forms above
+            vals = [a.value for a in ast.walk(gf.node) if isinstance(a, ast.Assign) and len(a.targets) == 1 and isinstance(a.targets[0], ast.Name) and a.targets[0].id == arg.id]
+            if len(vals) == 1 and not isinstance(vals[0], ast.Name):
+                return as_funcdef(vals[0])
+        return None
     pred_terms = []
     for p in body:
         c = p.conds()
@@ -127,7 +201,27 @@ def run(ctx) -> None:
                         bad = [a for a, want in pos.items() if c.get(a) is not want and c.get(a.replace("OLD.cookie == REC.cookie", "REC.cookie == OLD.cookie")) is not want]
                         if bad:
                             ok, msg = False, f"the in-batch element paired with the record does not satisfy the partner predicate on this path ({bad} not established): an unrelated event is swallowed into a pair"
-                        if not (first == "OLD" and e.extra.get("key") == "IDX"):
+                        key = e.extra.get("key") or ""
+                        # the search may also be spelled  idx = next((i for i, x in enumerate(OUT) if PRED(x)), None)  /  if idx is not None: OUT[idx] = (OUT[idx], rec)
+                        nm = re.fullmatch(rf"next\(\((\w+) for \1, (\w+) in enumerate\({re.escape(OUT)}\) if (.+)\), None\)", key)
+                        if nm and first == f"{OUT}[{key}]" and c.get(f"{key} is None") is False:
+                            try:
+                                cond = ast.parse(nm.group(3), mode="eval").body
+                            except SyntaxError:
+                                cond = None
+                            fnode = None
+                            if isinstance(cond, ast.Call) and len(cond.args) == 1 and isinstance(cond.args[0], ast.Name) and cond.args[0].id == nm.group(2) and not cond.keywords:
+                                fnode = as_funcdef(cond.func) if isinstance(cond.func, (ast.Name, ast.Lambda)) else None
+                                if fnode is None and isinstance(cond.func, ast.Attribute):
+                                    fnode = as_funcdef(ast.Lambda(ast.arguments(posonlyargs=[], args=[ast.arg("x__")], kwonlyargs=[], kw_defaults=[], defaults=[]), ast.Call(cond.func, [ast.Name("x__", ast.Load())], [])))
+                            elif cond is not None:
+                                fnode = as_funcdef(ast.Lambda(ast.arguments(posonlyargs=[], args=[ast.arg(nm.group(2))], kwonlyargs=[], kw_defaults=[], defaults=[]), cond))
+                            good = fnode is not None and predicate_ok(fnode, f"of the in-batch search `{nm.group(3)[:50]}`", loc)
+                            if good:
+                                bad, ok, msg = [], True, ""
+                            else:
+                                ok, msg = False, "the in-batch search `next(... if P(x))` uses a predicate that is not the partner predicate"
+                        elif not (first == "OLD" and key == "IDX"):
                             ok, msg = False, f"in-batch partner {first} is not replaced in place at its own index ({e.extra.get('key')}): it would also be delivered alone"
                     else:
                         if not first.startswith("self._queue.remove("):
@@ -146,73 +240,19 @@ def run(ctx) -> None:
                 ok, msg = False, "a partner is pulled out of the delay queue but not placed (lost)"
         ctx.check(ok, RP, f"_group_events {desc}", msg, loc)
         ctx.sample({"path": p.sig()[:100], "placement": [(h, render(t) if t is not None else None) for h, t, _ in placements]})
-    # ---------------------------------------------------------------- the predicate handed to the queue search
-    # Whatever callable remove() receives -- a closure of _group_events, a lambda, possibly delegating to a helper method -- is
-    # enumerated as a function of its own (helpers inlined, `return E` branched on E) and decided as a truth table over the
-    # three atoms; the cookie it compares with must be the current record's.
-    from ..flow import origins
-    from ..model import FuncInfo, boolified
-
-    rec_names = {n.target.id for n in ast.walk(gf.node) if isinstance(n, ast.For) and isinstance(n.target, ast.Name) and ast.unparse(n.iter) == IN}
-    rec_cookie = {f"{r}.cookie" for r in rec_names}
-
-    def is_rec_cookie(txt: str) -> bool:
-        if txt in rec_cookie:
-            return True
-        if txt.isidentifier():
-            return all(b in rec_cookie and not w for b, w in origins(gf.node, ast.Name(txt, ast.Load())))
-        return False
-
-    closures = {n.name: n for n in ast.walk(gf.node) if isinstance(n, ast.FunctionDef) and n is not gf.node}
     rcalls = [n for n in ast.walk(gf.node) if isinstance(n, ast.Call) and ast.unparse(n.func) == "self._queue.remove"]
     if not rcalls:
         raise AnalysisError("anchor vanished: self._queue.remove(...) in _group_events")
     npred = 0
     for rc in rcalls:
         arg = rc.args[0] if rc.args else None
-        node = None
-        if isinstance(arg, ast.Name) and arg.id in closures:
-            node = closures[arg.id]
-        elif isinstance(arg, ast.Lambda):
-            node = ast.FunctionDef(name="_partner_predicate", args=arg.args, body=[ast.Return(arg.body)], decorator_list=[], returns=None, type_comment=None, type_params=[])
-            ast.copy_location(node, arg)
-            ast.fix_missing_locations(node)
         where = f"{gf.module.relpath}:{rc.lineno}"
+        node = as_funcdef(arg) if arg is not None else None
         if node is None:
-            ctx.viol(RM, "remove() receives the partner predicate", f"self._queue.remove({ast.unparse(arg) if arg is not None else ''}) is not given a closure of _group_events or a lambda: what it searches for is not decidable here", where)
+            ctx.viol(RM, "remove() receives the partner predicate", f"self._queue.remove({ast.unparse(arg) if arg is not None else ''}) is not given a closure of _group_events, a lambda or a partial: what it searches for is not decidable here", where)
             continue
         npred += 1
-        params = [a.arg for a in node.args.args]
-        if len(params) != 1:
-            ctx.viol(RM, "partner predicate takes the queued element", f"predicate takes {params}", where)
-            continue
-        q = params[0]
-        fi_ = boolified(FuncInfo(node.name, f"{gf.qualname}.<locals>.{node.name}", node, gf.module, None))
-        ok, why, ntrue = True, "", 0
-        for p in Enumerator(ThreadCfg(P, follow_attrs=False)).run(fi_, selfcls="InotifyBuffer"):
-            if p.outcome[0] != "return" or not isinstance(p.outcome[1], ast.Constant):
-                ok, why = False, f"does not return a truth value on [{p.sig()[:60]}]"
-                continue
-            c = p.conds()
-            tup = c.get(f"isinstance({q}, tuple)")
-            mf = c.get(f"{q}.is_moved_from")
-            ck, other = None, None
-            for a, v in c.items():
-                m = re.fullmatch(rf"{re.escape(q)}\.cookie == (.+)|(.+) == {re.escape(q)}\.cookie", a)
-                if m:
-                    ck, other = v, (m.group(1) or m.group(2))
-            extra = [a for a in c if a not in (f"isinstance({q}, tuple)", f"{q}.is_moved_from") and not (other and other in a and ".cookie" in a)]
-            res = bool(p.outcome[1].value)
-            if res:
-                ntrue += 1
-                if not (tup is False and mf is True and ck is True and is_rec_cookie(other or "")):
-                    ok, why = False, f"accepts an element with tuple={tup}, is_moved_from={mf}, cookie-equal={ck} (compared with `{other}`)"
-            else:
-                if not (tup is True or mf is False or ck is False or any(c.get(a) is not None for a in extra)):
-                    ok, why = False, "rejects an element although it is a non-tuple MOVED_FROM with the record's cookie"
-                if tup is False and mf is True and ck is True:
-                    ok, why = False, "rejects the partner itself"
-        ctx.check(ok and ntrue >= 1, RM, f"partner predicate handed to remove() `{ast.unparse(arg)[:60]}`", why or "the predicate never accepts anything", where)
+        predicate_ok(node, f"handed to remove() `{ast.unparse(arg)[:60]}`", where)
     if npred == 0 and not any((not i.ok) and i.rule == RM for i in ctx.instances):
         raise AnalysisError("anchor vanished: partner predicate handed to DelayedQueue.remove")
 
